@@ -8,6 +8,7 @@ package mcp
 
 import (
 	"context"
+	"errors"
 	"fmt"
 	"io"
 	"slices"
@@ -51,6 +52,23 @@ type c18Opts struct {
 	// transport, so that the fan-out of the first notification is still in progress when
 	// the second change happens (made by the harness as soon as the fast session was notified)
 	slowPeer bool
+	// faultyPeer: two legacy sessions; the server's writes to one of them fail from the burst on.
+	// The healthy session is still owed its notification, whichever connected first.
+	faultyPeer bool
+}
+
+// c18FailWriter is the server's end of a connection that broke: writes fail.
+type c18FailWriter struct {
+	io.WriteCloser
+	failing *bool
+}
+
+func (w *c18FailWriter) Write(p []byte) (int, error) {
+	if *w.failing {
+		vs.Event("server write to the faulty session fails")
+		return 0, errors.New("injected write fault")
+	}
+	return w.WriteCloser.Write(p)
 }
 
 // c18StallWriter is the server's end of a connection whose peer stopped draining:
@@ -109,6 +127,13 @@ func c18Run(o c18Opts) vs.Verdict {
 	if o.slowPeer {
 		clients = []*c18Client{{name: "legacy", version: "2025-06-18", entitled: true}, {name: "legacy-slow", version: "2025-06-18", entitled: true}}
 	}
+	failing := false
+	if o.faultyPeer {
+		clients = []*c18Client{{name: "legacy-faulty", version: "2025-06-18", entitled: true}, {name: "legacy", version: "2025-06-18", entitled: true}}
+		if vs.Choose("faulty-session-connects", 2, 0) == 1 {
+			clients[0], clients[1] = clients[1], clients[0]
+		}
+	}
 	ctl := vs.NewController()
 	slowGate := ctl.Gate("list-response-in-user-middleware")
 	slowArmed := false
@@ -162,6 +187,12 @@ func c18Run(o c18Opts) vs.Verdict {
 			ct = &IOTransport{Reader: cr, Writer: cw}
 			st = &IOTransport{Reader: sr, Writer: &c18StallWriter{WriteCloser: sw, stalled: &stalled, resume: resume}}
 		}
+		if o.faultyPeer && c.name == "legacy-faulty" {
+			cr, sw := io.Pipe()
+			sr, cw := io.Pipe()
+			ct = &IOTransport{Reader: cr, Writer: cw}
+			st = &IOTransport{Reader: sr, Writer: &c18FailWriter{WriteCloser: sw, failing: &failing}}
+		}
 		if _, err := s.Connect(ctx, st, nil); err != nil {
 			return vs.Verdict{Bad: "server connect: " + err.Error(), Sig: "c18 setup"}
 		}
@@ -212,6 +243,9 @@ func c18Run(o c18Opts) vs.Verdict {
 	}
 	if o.slowPeer {
 		stalled = true
+	}
+	if o.faultyPeer {
+		failing = true
 	}
 	vs.Go(func() {
 		if o.cacheRace {
@@ -279,6 +313,9 @@ func c18Run(o c18Opts) vs.Verdict {
 		}
 	}
 	for _, c := range clients {
+		if o.faultyPeer && c.name == "legacy-faulty" {
+			continue // its connection broke; nothing is owed to it
+		}
 		gotNote := slices.Contains(c.sawMethod, "notifications/tools/list_changed")
 		switch {
 		case o.capabilityOff:
@@ -349,6 +386,7 @@ func TestVerifC18(t *testing.T) {
 		vs.E1(t, "burst/cache-race/ttl=60s", env.Pick(1, 2), vs.Options{}, func() vs.Verdict { return c18Run(c18Opts{ttl: 60000, inflightList: true, cacheRace: true}) }),
 		vs.E1(t, "burst/small/legacy-only", env.Pick(3, 4), vs.Options{}, func() vs.Verdict { return c18Run(c18Opts{small: true}) }),
 		vs.E1(t, "burst/slow-peer-during-fan-out", env.Pick(1, 2), vs.Options{}, func() vs.Verdict { return c18Run(c18Opts{slowPeer: true}) }),
+		vs.E1(t, "burst/faulty-peer-during-fan-out", env.Pick(1, 2), vs.Options{}, func() vs.Verdict { return c18Run(c18Opts{faultyPeer: true}) }),
 		vs.E1(t, "burst/capability-disabled", env.Pick(0, 1), vs.Options{}, func() vs.Verdict { return c18Run(c18Opts{capabilityOff: true}) }),
 	}
 	env.Run(scs)
